@@ -51,9 +51,40 @@ impl Copy for SessionState {}
 pub struct ValueSetSession {
     pub map: BTreeMap<Uuid, Session>,
 }
-pub type ValueSet = Box<ValueSetSession>;
-impl ValueSetSession {
-    pub fn as_session_map(&self) -> Option<&BTreeMap<Uuid, Session>> {
+/// value.rs Oauth2Session, reduced like Session (parent / issued_at folded into `tag`)
+#[derive(Clone, Copy, Debug, PartialEq, Eq)]
+pub struct Oauth2Session {
+    pub state: SessionState,
+    pub rs_uuid: Uuid,
+    pub tag: u8,
+}
+#[derive(Clone, Copy, Debug)]
+pub struct ValueSetOauth2Session {
+    pub map: BTreeMap<Uuid, Oauth2Session>,
+    pub rs_filter: u128,
+}
+impl Uuid {
+    pub fn as_u128(&self) -> u128 {
+        self.0 as u128
+    }
+}
+/// the value-set trait object, as far as replication merge uses it
+pub trait ValueSetT {
+    fn as_session_map(&self) -> Option<&BTreeMap<Uuid, Session>> {
+        None
+    }
+    fn as_oauth2session_map(&self) -> Option<&BTreeMap<Uuid, Oauth2Session>> {
+        None
+    }
+}
+pub type ValueSet = Box<dyn ValueSetT>;
+impl ValueSetT for ValueSetSession {
+    fn as_session_map(&self) -> Option<&BTreeMap<Uuid, Session>> {
+        Some(&self.map)
+    }
+}
+impl ValueSetT for ValueSetOauth2Session {
+    fn as_oauth2session_map(&self) -> Option<&BTreeMap<Uuid, Oauth2Session>> {
         Some(&self.map)
     }
 }
